@@ -260,6 +260,20 @@ Example C07_pipe_retry_usable :
 Proof. vm_compute. split; reflexivity. Qed.
 Print Assumptions C07_pipe_retry_usable.
 
+(* uv_shutdown / uv_write issued while a tcp connect is still in progress do not wake the
+   watcher (since /repo 83eb44c for uv_shutdown): whatever SO_ERROR would answer, no connect
+   callback runs until the kernel reports an event; at close the request is cancelled, the
+   queued write and the shutdown get their callbacks.  (Before 83eb44c the shutdown fed the
+   watcher, uv__stream_connect read SO_ERROR = 0 from the socket that was still connecting and
+   reported status 0 - finding shutdown_during_connect_reports_premature_success, fixed.) *)
+Example C07_shutdown_during_connect_waits :
+  let '(x, tr) := crun (cinit false true (mkO [0] [-115] [0; 0; 0] [false; false; false; false]))
+                       [CTcp; CWrite; CShut; CRun; CRun; CRun; CClose; CRun] (fun _ => []) in
+  filter (fun e => match e with CReg _ => false | _ => true end) tr =
+    [CRet 0 0; CCb 0 UV_ECANCELED SrcCancel; CWcb; CScb; CClosed] /\ creg x = 0%nat.
+Proof. vm_compute. split; reflexivity. Qed.
+Print Assumptions C07_shutdown_during_connect_waits.
+
 (* ---- request accounting: loop->active_reqs.count, uv_loop_alive, uv_loop_close ---- *)
 (* [creg] mirrors uv__req_init (register) / uv__req_unregister.  In every reachable state
    it equals the number of connects accepted with 0 and not yet called back, which is the
